@@ -14,6 +14,8 @@ Revoke(c, a, kind, t, h) == [op |-> "revoke", client |-> c, auth |-> a, kind |->
 Introspect(c, caller, n, kind, t, h, need) ==
   [op |-> "introspect", client |-> c, caller |-> caller, n |-> n, kind |-> kind, tok |-> t, hint |-> h, need |-> need]
 CCreds(c, a, sc, au) == [op |-> "ccreds", client |-> c, auth |-> a, scopes |-> sc, aud |-> au]
+PasswordG(c, a, u, sc, gr, au) ==      \* ... where the application grants only gr of the requested scopes
+  [op |-> "password", client |-> c, auth |-> a, user |-> u, scopes |-> sc, grant |-> gr, aud |-> au]
 Password(c, a, u, sc, au) == [op |-> "password", client |-> c, auth |-> a, user |-> u, scopes |-> sc, aud |-> au]
 DevStart(c, a, sc, gr, au) == [op |-> "devstart", client |-> c, auth |-> a, scopes |-> sc, grant |-> gr, aud |-> au]
 DevDecide(d, dec) == [op |-> "devdecide", dev |-> d, dec |-> dec]
